@@ -20,7 +20,7 @@ import (
 var verifMergeCalls int
 var verifMergePanics bool
 
-func verifMerge(dst *Config, src Config, opts ...func(*mergo.Config)) error {
+func verifMerge(dstAny, srcAny interface{}, opts ...func(*mergo.Config)) error {
 	verifMergeCalls++
 	if verifMergePanics {
 		panic(errInjected)
@@ -29,12 +29,37 @@ func verifMerge(dst *Config, src Config, opts ...func(*mergo.Config)) error {
 	for _, o := range opts {
 		o(cfg)
 	}
-	for k, v := range src {
-		if _, ok := (*dst)[k]; !ok || cfg.Overwrite {
-			(*dst)[k] = v
+	switch dst := dstAny.(type) {
+	case *Config:
+		src, ok := srcAny.(Config)
+		if !ok {
+			return errors.New("verifMerge: unsupported source type")
 		}
+		for k, v := range src {
+			if _, ok := (*dst)[k]; !ok || cfg.Overwrite {
+				(*dst)[k] = v
+			}
+		}
+		return nil
+	case *configv1alpha1.JobExecutionConfig:
+		// typed structs (mergo v0.3.12): a source field is copied when it is not "empty"
+		// (nil, or a pointer to a zero value) and the destination is nil or overwriting is on
+		src, ok := srcAny.(*configv1alpha1.JobExecutionConfig)
+		if !ok || src == nil {
+			return errors.New("verifMerge: unsupported source type")
+		}
+		mergeInt := func(d **int64, s *int64) {
+			if s != nil && *s != 0 && (*d == nil || cfg.Overwrite) {
+				v := *s
+				*d = &v
+			}
+		}
+		mergeInt(&dst.DefaultTTLSecondsAfterFinished, src.DefaultTTLSecondsAfterFinished)
+		mergeInt(&dst.DefaultPendingTimeoutSeconds, src.DefaultPendingTimeoutSeconds)
+		mergeInt(&dst.ForceDeleteTaskTimeoutSeconds, src.ForceDeleteTaskTimeoutSeconds)
+		return nil
 	}
-	return nil
+	return errors.New("verifMerge: unsupported destination type")
 }
 
 type verifLoader struct {
